@@ -40,3 +40,50 @@ var _ = vReg("Self_Empty", Self_Empty)
 func Self_Empty() {
 	vObserve("steps", 1)
 }
+
+var _ = vReg("Self_GoldenHash", Self_GoldenHash)
+
+// Self_GoldenHash: a fully concrete history executed with real SHA-256 in the executor; every root
+// hash, proof verification result and read is observed and compared with the native run (translator
+// validation on concrete data: preimage bytes, varints, rotations, storage round trip).
+func Self_GoldenHash() {
+	db := newVDB()
+	tree := NewMutableTree(db, 0, false, NewNopLogger())
+	keys := []string{"alpha", "beta", "gamma", "delta", "epsilon", "zeta", "eta", "theta", "iota", "kappa", "a", "ab", "b", "\x00", "\xff\xff"}
+	for i, k := range keys {
+		tree.Set([]byte(k), []byte{byte(i), byte(i * 7)})
+		if i%4 == 3 {
+			h, v, err := tree.SaveVersion()
+			vAssert(err == nil, "golden:save")
+			vObserve("hash", h, v)
+		}
+	}
+	for _, k := range []string{"beta", "a", "theta", "missing"} {
+		val, removed, err := tree.Remove([]byte(k))
+		vAssert(err == nil, "golden:remove")
+		vObserve("remove", val, removed)
+	}
+	vObserve("working", tree.WorkingHash())
+	h, v, err := tree.SaveVersion()
+	vAssert(err == nil, "golden:save2")
+	vObserve("hash", h, v)
+	t2 := NewMutableTree(db, 100, false, NewNopLogger())
+	lv, err := t2.Load()
+	vAssert(err == nil, "golden:load")
+	vObserve("loaded", lv, t2.Hash(), t2.Size(), int(t2.Height()))
+	for _, k := range []string{"gamma", "ab", "nothing", "\xff\xff"} {
+		idx, val, err := t2.GetWithIndex([]byte(k))
+		vAssert(err == nil, "golden:get")
+		vObserve("get", idx, val)
+		p, err := t2.GetProof([]byte(k))
+		vAssert(err == nil, "golden:proof")
+		ok, err := t2.VerifyProof(p, []byte(k))
+		vAssert(err == nil, "golden:verify")
+		vObserve("proof", ok)
+	}
+	vAssert(t2.DeleteVersionsTo(2) == nil, "golden:prune")
+	it, err := t2.GetImmutable(3)
+	vAssert(err == nil, "golden:getimmutable")
+	vObserve("v3", it.Hash(), it.Size())
+	vCover("golden")
+}
